@@ -33,6 +33,11 @@ func GenWindow(r *rand.Rand, pInstant float64, big bool) Window {
 	steps := []int64{1000, 15000, 30000, 60000, 7000, 10000, 1, 300000, 2500}
 	step := steps[r.Intn(len(steps))]
 	n := 1 + r.Intn(35)
+	if r.Intn(6) == 0 {
+		// five and more batches: the look-ahead goroutines (two buffered batches plus one in
+		// flight) recycle buffers and can overtake their consumer only from the fourth batch on
+		n = []int{41, 45, 52, 57, 61}[r.Intn(5)]
+	}
 	if big && r.Intn(8) == 0 {
 		n = []int{101, 250, 100, 110, 41}[r.Intn(5)]
 	}
